@@ -76,7 +76,9 @@ impl<'a> SegmentQueryRunner<'a> {
     /// If ORDER BY is present, returns None to allow all events to be collected
     /// for proper sorting. Otherwise, returns the configured limit.
     fn determine_eval_limit(&self, ctx: &QueryContext) -> Option<usize> {
-        if ctx.should_defer_limit() {
+        // LIMIT on an aggregation caps the number of groups (applied after the merge in
+        // AggregateStreamMerger), never the events scanned into those groups.
+        if ctx.should_defer_limit() || self.plan.aggregate_plan.is_some() {
             None
         } else {
             self.limit
